@@ -74,6 +74,16 @@ pub fn record(seed: u64, n: usize) -> Vec<J> {
     // the first events are long even-length lists of widely spread ranks for median / min / max: selection shortcuts that
     // only order part of the list show on lists longer than the small-slice threshold of the standard library's sorts
     let directed: Vec<usize> = [18usize, 20, 22, 24, 32, 40, 50, 64].iter().flat_map(|l| std::iter::repeat(*l).take(8)).collect();
+    // directed: products with a zero and an infinity among the factors, in every order (NaN wherever they stand)
+    for ds in [vec![0.0, f64::INFINITY], vec![f64::INFINITY, 0.0], vec![2.0, 0.0, f64::NEG_INFINITY, 3.0], vec![f64::NEG_INFINITY, 5.0, -0.0], vec![0.0, 7.0, 3.0, f64::INFINITY, 0.5],
+               vec![-0.0, f64::INFINITY, f64::INFINITY], vec![4.0, f64::INFINITY, 2.0, 0.0]] {
+        let s = Session::new();
+        let items: Vec<String> = ds.iter().map(|x| mv::num_src(*x)).collect();
+        let fs = forms("prod", &items);
+        let obs: Vec<String> = fs.iter().map(|(_, src)| obs_bits(&s.eval(src))).collect();
+        let spread = if obs[3..].iter().all(|o| *o == obs[2]) { obs[2].clone() } else { format!("spread forms differ: {:?}", &obs[2..]) };
+        out.push(json!({"ev":"conv","f":"prod","list":obs[0],"separate":obs[1],"spread":spread,"member":"n/a","expected":"nan","src":fs[1].1}));
+    }
     for i in 0..n + directed.len() {
         let s = Session::new();
         let lift = *r.pick(Lift::all());
@@ -145,6 +155,13 @@ pub fn record(seed: u64, n: usize) -> Vec<J> {
                 let (pinf, ninf) = (ds.iter().any(|x| *x == f64::INFINITY), ds.iter().any(|x| *x == f64::NEG_INFINITY));
                 let tame = ds.iter().all(|x| x.is_infinite() || x.abs() < 1e300);
                 let expected = if (f == "sum" || f == "avg") && (pinf != ninf) && tame { mv::hex(if pinf { f64::INFINITY } else { f64::NEG_INFINITY }) } else { "n/a".to_string() };
+                // a product with a zero and an infinity among its factors is NaN wherever they stand; with a zero and only finite
+                // factors it is a zero
+                let has_zero = ds.iter().any(|x| *x == 0.0);
+                let has_inf = ds.iter().any(|x| x.is_infinite());
+                let expected = if f == "prod" && has_zero && has_inf { "nan".to_string() }
+                               else if f == "prod" && has_zero && ds.iter().all(|x| x.abs() < 1e30) && (obs[0] == mv::hex(0.0) || obs[0] == mv::hex(-0.0)) { obs[0].clone() }
+                               else if f == "prod" && has_zero && ds.iter().all(|x| x.abs() < 1e30) { mv::hex(0.0) } else { expected };
                 let spread = if obs[3..].iter().all(|o| *o == obs[2]) { obs[2].clone() } else { format!("spread forms differ: {:?}", &obs[2..]) };
                 out.push(json!({"ev":"conv","f":f,"list":obs[0],"separate":obs[1],"spread":spread,"member":member,"expected":expected,"src":fs[1].1}));
             }
